@@ -110,9 +110,28 @@ def fold_dynamic_names(tree):
                     return node
             return ast.copy_location(ast.Constant(value=''.join(parts)), node)
 
+        def visit_BinOp(self, node):
+            self.generic_visit(node)
+            if isinstance(node.op, ast.Add) and isinstance(node.left, ast.Constant) and isinstance(node.right, ast.Constant) \
+                    and isinstance(node.left.value, str) and isinstance(node.right.value, str):
+                return ast.copy_location(ast.Constant(value=node.left.value + node.right.value), node)
+            if isinstance(node.op, ast.Mod) and isinstance(node.left, ast.Constant) and isinstance(node.left.value, str) \
+                    and isinstance(node.right, ast.Constant) and isinstance(node.right.value, (str, int)) and node.left.value.count('%') == 1:
+                try:
+                    return ast.copy_location(ast.Constant(value=node.left.value % node.right.value), node)
+                except (TypeError, ValueError):
+                    return node
+            return node
+
         def visit_Call(self, node):
             self.generic_visit(node)
             f = node.func
+            if isinstance(f, ast.Attribute) and f.attr == 'format' and isinstance(f.value, ast.Constant) and isinstance(f.value.value, str) \
+                    and not node.keywords and node.args and all(isinstance(a, ast.Constant) and isinstance(a.value, (str, int)) for a in node.args):
+                try:
+                    return ast.copy_location(ast.Constant(value=f.value.value.format(*[a.value for a in node.args])), node)
+                except (IndexError, KeyError, ValueError):
+                    return node
             if isinstance(f, ast.Name) and not node.keywords:
                 a = node.args
                 if f.id == 'getattr' and len(a) == 2 and isinstance(a[1], ast.Constant) and isinstance(a[1].value, str) and a[1].value.isidentifier():
@@ -149,6 +168,13 @@ def fold_dynamic_names(tree):
     return tree
 
 
+def _dotted_load(e):
+    """A Name or a chain of attribute loads on a Name that looks like a module/class constant (np.floating, cls.KIND)."""
+    if isinstance(e, ast.Name):
+        return True
+    return isinstance(e, ast.Attribute) and isinstance(e.value, ast.Name) and e.value.id not in ('self',)
+
+
 def unroll_literal_loops(tree):
     """Normalisation: `for name in ('a', 'b'): body` (a literal tuple/list of constants, possibly through a
     single-assignment local or a module/class-level constant table, no break/continue/else) becomes the body repeated
@@ -164,7 +190,7 @@ def unroll_literal_loops(tree):
         def visit_Name(self, n):
             if n.id == self.name and isinstance(n.ctx, ast.Load):
                 if isinstance(self.const, tuple) and self.const[0] == 'name':
-                    return ast.copy_location(ast.Name(id=self.const[1], ctx=ast.Load()), n)
+                    return ast.copy_location(ast.parse(self.const[1], mode='eval').body, n)
                 return ast.copy_location(ast.Constant(value=self.const), n)
             return n
 
@@ -176,6 +202,10 @@ def unroll_literal_loops(tree):
                 isinstance(e, (ast.Tuple, ast.List)) and e.elts and all(isinstance(x, ast.Constant) and isinstance(x.value, (str, int)) for x in e.elts)
                 for e in it.elts):
             return [tuple(x.value for x in e.elts) for e in it.elts]
+        if isinstance(it, ast.Call) and isinstance(it.func, ast.Name) and it.func.id == 'range' and not it.keywords and 1 <= len(it.args) <= 2 \
+                and all(isinstance(a, ast.Constant) and isinstance(a.value, int) and not isinstance(a.value, bool) for a in it.args):
+            r = range(*[a.value for a in it.args])
+            return list(r) if 0 < len(r) <= 8 else None
         if isinstance(it, ast.Name) and it.id in tables and (fnnode is None or not any(
                 isinstance(n, ast.Name) and n.id == it.id and isinstance(n.ctx, ast.Store) for n in ast.walk(fnnode))):
             return list(tables[it.id])
@@ -184,6 +214,8 @@ def unroll_literal_loops(tree):
             return list(tables[cls + '.' + it.attr])
         if isinstance(it, (ast.Tuple, ast.List)) and it.elts and len(it.elts) <= 4 and all(isinstance(e, ast.Name) for e in it.elts):
             return [('name', e.id) for e in it.elts]
+        if isinstance(it, (ast.Tuple, ast.List)) and it.elts and len(it.elts) <= 4 and all(_dotted_load(e) for e in it.elts):
+            return [('name', ast.unparse(e)) for e in it.elts]
         if isinstance(it, ast.Name) and fnnode is not None:
             defs = [n for n in ast.walk(fnnode) if isinstance(n, ast.Assign) and any(isinstance(t, ast.Name) and t.id == it.id for t in n.targets)]
             others = [n for n in ast.walk(fnnode) if isinstance(n, (ast.AugAssign, ast.For)) and isinstance(getattr(n, 'target', None), ast.Name)
@@ -234,6 +266,18 @@ def unroll_literal_loops(tree):
                     return ast.copy_location(ast.List(elts=elts, ctx=ast.Load()), node)
             return node
 
+        def visit_Assign(self, node):
+            self.generic_visit(node)
+            # a, b = [e1, e2]  ->  a = e1; b = e2   (when no element reads a target: not a swap)
+            if len(node.targets) == 1 and isinstance(node.targets[0], (ast.Tuple, ast.List)) and isinstance(node.value, (ast.Tuple, ast.List)) \
+                    and len(node.targets[0].elts) == len(node.value.elts) and all(isinstance(t, ast.Name) for t in node.targets[0].elts) \
+                    and not any(isinstance(v, ast.Starred) for v in node.value.elts):
+                names = {t.id for t in node.targets[0].elts}
+                if len(names) == len(node.targets[0].elts) and not any(isinstance(x, ast.Name) and x.id in names for v in node.value.elts for x in ast.walk(v)):
+                    return [ast.copy_location(ast.Assign(targets=[ast.Name(id=t.id, ctx=ast.Store())], value=v, type_comment=None), node)
+                            for t, v in zip(node.targets[0].elts, node.value.elts)]
+            return node
+
         def visit_For(self, node):
             self.generic_visit(node)
             if any(isinstance(x, (ast.Break, ast.Continue)) for b in node.body for x in ast.walk(b)):
@@ -256,7 +300,7 @@ def unroll_literal_loops(tree):
             vals = literal_of(self.fn, node.iter, self.cls)
             if vals is None or any(isinstance(v, tuple) and v[:1] != ('name',) for v in vals):
                 return node
-            names = {v[1] for v in vals if isinstance(v, tuple)}
+            names = {v[1].split('.')[0] for v in vals if isinstance(v, tuple)}
             if names and any(isinstance(x, ast.Name) and x.id in names and isinstance(x.ctx, ast.Store) for b in node.body for x in ast.walk(b)):
                 return node
             out = []
